@@ -8,6 +8,9 @@ spec/bridge/MetricsBridge.tla  implementation-shaped model (atomic cells, one RM
 spec/bridge/MetricsBridgeTrace.tla  T: traces recorded from the real bridge (2-8 updater threads through
                                the metrics macros, a reader thread calling readout() in a loop, a final
                                readout) validated by TLC against the property layer
+spec/bridge/Reporter.tla       the publishing task of MetricReporter (periodic publish, final publish at shutdown);
+                               R: every update/tick/shutdown history replayed into a real MetricReporter with a
+                               recording sink; everything published must add up to TLC's expectation
 spec/bridge/BridgeNaming.tla   R: describe / first use / readout orders; expected readout items from TLC
 """
 import json, os, sys
@@ -129,6 +132,147 @@ def run_naming(chk, tier, only=None):
     chk.nontrivial.update(f"naming:{i}" for i in range(len(beh)))
     if beh:
         chk.sample({"naming_behaviour": beh[len(beh) // 3]})
+    return bad
+
+
+# --------------------------------------------------------------------------------------------
+# R: the publishing task (MetricReporter): what reaches the destination
+# --------------------------------------------------------------------------------------------
+REP_ACTIONS = ["Inc", "Rec", "Tick", "Shutdown"]
+
+
+def reporter_models(chk):
+    for cfg in ["MC_rep.cfg", "MC_rep_z.cfg"]:
+        r = vlib.model_check(SPECD, "Reporter", cfg, timeout=1800)
+        missing = [a for a in REP_ACTIONS if r.coverage.get(a, 0) == 0]
+        if missing:
+            raise vlib.ToolError(f"Reporter/{cfg}: actions never taken: {missing}")
+        chk.add_model("Reporter/" + cfg, r)
+    r = vlib.tlc(SPECD, "Reporter", "MC_rep_neg.cfg", timeout=600)
+    if not r.invariant_violated:
+        raise vlib.ToolError("the property layer accepts a reporter that drops its final readout (MC_rep_neg.cfg)")
+    log(f"[tlc] Reporter/MC_rep_neg.cfg: reporter that appends the final readout only if a counter moved: rejected "
+        f"({r.invariant_violated[0]}) after {r.generated} states")
+    chk.extra.setdefault("negative_models_rejected", []).append(
+        {"reporter": "final readout appended only if it lists a counter", "invariant": r.invariant_violated[0],
+         "states_generated": r.generated})
+
+
+def as_map(x):
+    return x if isinstance(x, dict) else {}
+
+
+def run_reporter(chk, tier, only=None):
+    depth = 6 if tier == "quick" else 7
+    if only is not None:
+        beh = [only]
+    else:
+        beh = []
+        for z in ("FALSE", "TRUE"):
+            cfg = f"MC_rep_replay_d{depth}_{z}.cfg"
+            r = vlib.tlc(SPECD, "ReporterReplay", cfg, timeout=1800)
+            if r.errors or r.invariant_violated:
+                sys.stdout.write(r.out[-3000:])
+                raise vlib.ToolError(f"ReporterReplay/{cfg} failed: {r.errors[:2]}")
+            pre = '<<"REPLAY", '
+            got = [json.loads(json.loads(l[len(pre):-2])) for l in r.out.splitlines() if l.startswith(pre)]
+            if not got:
+                raise vlib.ToolError(f"ReporterReplay/{cfg} produced no behaviours")
+            log(f"[tlc] ReporterReplay/{cfg}: {len(got)} behaviours in {r.wall:.1f}s")
+            beh += got
+    bp = os.path.join(chk.dir, "reporter-beh.ndjson")
+    op = os.path.join(chk.dir, "reporter-out.ndjson")
+    vlib.write_ndjson(bp, beh)
+    vlib.run_bin("mb", ["rep", "--behaviours", bp, "--out", op, "--threads", 8, "--interval-ms", 6], timeout=3600)
+    outs = vlib.read_ndjson(op)
+    assert len(outs) == len(beh)
+    bad = 0
+    st = {"entries_published": 0, "extra_idle_publishes": 0, "quiet_final_windows": 0, "handle_released_before_last_publish": 0,
+          "appended_after_shutdown": 0}
+    for b, o in zip(beh, outs):
+        steps = b["steps"]
+        # vacuity statistics: last window (after the last Tick) with gauge/histogram activity but no counter activity
+        last_tick = max([i for i, s in enumerate(steps) if s[0] == "Tick"] + [-1])
+        win = [s[0] for s in steps[last_tick + 1:-1]]
+        if win and "Inc" not in win:
+            st["quiet_final_windows"] += 1
+        viol = None
+        if o.get("problem"):
+            viol = o["problem"]
+        cumC, cumH, lastG = {}, {}, {}
+        got_steps = {x["step"]: x["entries"] for x in o["steps"]}
+        npub = 0
+        for i, s in enumerate(steps):
+            if viol or s[0] not in ("Tick", "Shutdown"):
+                continue
+            exp = s[1]
+            entries = got_steps.get(i, [])
+            st["entries_published"] += len(entries)
+            npub += len(entries)
+            for e in entries:
+                listed = set()
+                for it in e:
+                    k = it["key"]
+                    listed.add(k)
+                    if k == "?":
+                        viol = f"step {i} ({s[0]}): published item kind={it['kind']} name={it['name']} dims={it['dims']} is no registered key"
+                    elif it["kind"] == "c":
+                        cumC[k] = cumC.get(k, 0) + it["v"]
+                    elif it["kind"] == "g":
+                        lastG[k] = it["v"]
+                    else:
+                        for total, occ in it["obs"]:
+                            if occ and (total < 0 or total % occ or abs(total // occ - 100) * 16 > 100):
+                                viol = f"step {i}: histogram value {total}/{occ} is not within 1/16 of the recorded 100"
+                            cumH[k] = cumH.get(k, 0) + occ
+                missing = [k for k in exp["listed"] if k not in listed]
+                if missing and not viol:
+                    viol = f"step {i} ({s[0]}): a published readout does not list {missing} (emit_zero={b['emit_zero']})"
+            if viol:
+                break
+            ec = {k: v for k, v in as_map(exp["cumC"]).items()}
+            eh = {k: v for k, v in as_map(exp["cumH"]).items()}
+            eg = as_map(exp["lastG"])
+            gc = {k: cumC.get(k, 0) for k in ec}
+            gh = {k: cumH.get(k, 0) for k in eh}
+            if gc != ec or gh != eh or lastG != eg:
+                viol = (f"after step {i} ({s[0]}) everything published so far must add up to counters {ec}, histogram samples {eh}, "
+                        f"last gauge values {eg}; the destination received counters {gc}, samples {gh}, gauges {lastG} "
+                        f"({npub} entries)")
+                break
+            if npub < exp["npub"] and len(chk.drift) < 20:
+                chk.drift.append({"source": "reporter", "behaviour": o["id"], "step": i,
+                                  "what": f"{npub} entries published, the model publishes {exp['npub']} (nothing was lost)"})
+            if npub > exp["npub"]:
+                st["extra_idle_publishes"] += npub - exp["npub"]
+                exp_extra = npub - exp["npub"]
+        if o.get("appended_after_handle_drop"):
+            st["handle_released_before_last_publish"] += 1
+        if o.get("appended_after_shutdown"):
+            st["appended_after_shutdown"] += 1
+        chk.evaluations += 1
+        if viol:
+            bad += 1
+            ops = " ".join(f"{s[0]}({s[1]},{s[2]})" if s[0] in ("Inc", "Set", "Rec") else s[0] for s in steps)
+            chk.violation(f"reporter: history {ops} (emit_zero={b['emit_zero']}): {viol}",
+                          {"kind": "reporter", "behaviour": b, "observed": o}, key="C20:reporter")
+    chk.traces += len(beh) - bad
+    chk.nontrivial.update(f"reporter:{i}" for i in range(len(beh)))
+    ex = chk.extra.setdefault("reporter", {})
+    ex["behaviours"] = ex.get("behaviours", 0) + len(beh)
+    for k, v in st.items():
+        ex[k] = ex.get(k, 0) + v
+    if st["handle_released_before_last_publish"] and len(chk.drift) < 20:
+        chk.drift.append({"source": "reporter", "what": "the shutdown handle passed to metrics_sink((sink, handle)) is released "
+                          "before the reporter publishes (in the model: after the final publish); not part of C20's statement",
+                          "behaviours": st["handle_released_before_last_publish"]})
+    if st["appended_after_shutdown"] and len(chk.drift) < 20:
+        chk.drift.append({"source": "reporter", "what": "entries appended after shutdown() had returned",
+                          "behaviours": st["appended_after_shutdown"]})
+    if only is None and not st["quiet_final_windows"]:
+        raise vlib.ToolError("no reporter history ends with a window of gauge/histogram-only activity (vacuous)")
+    if beh:
+        chk.sample({"reporter_history": beh[len(beh) // 2]})
     return bad
 
 
@@ -279,7 +423,9 @@ def run(prop, tier):
     vlib.cargo_build(["mb"])
     if not vlib.SKIP_MC:
         model_checks(chk, tier)
+        reporter_models(chk)
     run_naming(chk, tier)
+    run_reporter(chk, tier)
     nruns = 48 if tier == "quick" else 600
     run_recorded(chk, nruns, chk.seed)
     racing, conc = chk.extra.get("readouts_started_while_updates_in_flight", 0), chk.extra.get("concurrent_readouts", 0)
@@ -296,6 +442,10 @@ def replay(prop, path):
     chk = vlib.Check(prop + "-replay", "quick")
     if rp["kind"] == "naming":
         bad = run_naming(chk, "quick", only=rp["behaviour"])
+        log("replay:", "still violated" if bad else "no longer violated")
+        return 1 if bad else 0
+    if rp["kind"] == "reporter":
+        bad = run_reporter(chk, "quick", only=rp["behaviour"])
         log("replay:", "still violated" if bad else "no longer violated")
         return 1 if bad else 0
     tp = os.path.join(chk.dir, "stored.ndjson")
